@@ -143,7 +143,12 @@ def check_sf(ctx, case):
             exp2 = DR.schedule_words(kb)[DES_CLASSES[case['asked_before']][1]]
         if list(map(int, np.asarray(ek2).reshape(-1))) != list(map(int, exp2)):
             raise Violation('%s %s: compute_expected_key differs from the reference round key' % (cipher, case['asked_before']), case)
-    sf = must(case, '%s.%s(%s)' % (cipher, name, sorted(kwargs) + sorted(tagkw)), klass, **kwargs, **tagkw)
+    if case.get('words_late') and words is not None:
+        # the selection is set through the public attribute of an object built with the default (all words), in the form the constructor stores
+        sf = must(case, '%s.%s(%s)' % (cipher, name, sorted(k for k in kwargs if k != 'words') + sorted(tagkw)), klass, **{k: v for k, v in kwargs.items() if k != 'words'}, **tagkw)
+        sf.words = np.array(words, dtype='uint8') if isinstance(words, list) else words
+    else:
+        sf = must(case, '%s.%s(%s)' % (cipher, name, sorted(kwargs) + sorted(tagkw)), klass, **kwargs, **tagkw)
     full_sf = klass(**tagkw)
     arr = data.astype(case['dtype'])
     meta = {data_tag: arr}
@@ -193,7 +198,15 @@ def check_sf(ctx, case):
     for extra in case.get('extra_meta') or []:
         if extra not in kmeta and extra in ('key', 'data', 'foo'):
             kmeta[extra] = np.roll(key, 1) ^ 0x55
+    kbuf = np.array(key, copy=True)
+    kmeta[key_tag] = kbuf
     ek = must(case, 'compute_expected_key', sf.compute_expected_key, **kmeta)
+    # the caller's key buffer is refilled for the next device while the expected key is still held: the held value is that of the key it was asked for
+    ek_then = np.array(ek, copy=True)
+    kbuf[...] = 255 - kbuf
+    if not np.array_equal(np.asarray(ek), ek_then):
+        raise Violation('%s %s: the expected key returned earlier changed when the caller refilled its key buffer' % (cipher, name), case)
+    ek = ek_then
     if list(map(int, np.asarray(ek).reshape(-1))) != list(map(int, exp_key)):
         raise Violation('%s %s: compute_expected_key differs from the reference %s round key' % (cipher, name, 'first/last'), case)
     for t in range(n):
@@ -208,7 +221,7 @@ def check_sf(ctx, case):
     nontrivial = words is not None or guesses is not None or (cipher == 'aes' and len(key) != 16)
     ctx.case(case, nontrivial, ['%s.%s' % (cipher, name), 'words:' + type(words).__name__, 'guesses:' + ('default' if guesses is None else type(guesses).__name__),
                                 'keysize:%d' % len(key)] + (['traces==guesses'] if n == len(g_list) else []) + (['custom_tags'] if tagkw else [])
-             + (['decoy_metadata:' + '+'.join(sorted(case.get('extra_meta')))] if case.get('extra_meta') else []) + (['same_array_reused'] if case.get('prime') else []) + (['other_expected_key_asked_before'] if case.get('asked_before') else []))
+             + (['decoy_metadata:' + '+'.join(sorted(case.get('extra_meta')))] if case.get('extra_meta') else []) + (['same_array_reused'] if case.get('prime') else []) + (['other_expected_key_asked_before'] if case.get('asked_before') else []) + (['words_attribute_set_after_construction'] if case.get('words_late') and words is not None else []))
 
 
 @st.composite
@@ -249,6 +262,7 @@ def sf_cases(draw, cipher, name):
             'dtype': draw(st.sampled_from(['uint8', 'uint8', 'int16', 'int64'])), 'all_guesses': draw(st.integers(0, 9)) == 0,
             'data_tag': draw(st.sampled_from([None, None, 'pt', 'data', 'input'])), 'key_tag': draw(st.sampled_from([None, None, 'k', 'masterkey'])),
             'extra_meta': draw(st.lists(st.sampled_from(['data', 'key', 'plaintext', 'ciphertext', 'foo']), max_size=3, unique=True)), 'prime': draw(st.booleans()),
+            'words_late': draw(st.integers(0, 3)) == 0,
             'asked_before': draw(st.sampled_from(['', ''] + [c for c in (AES_CLASSES if cipher == 'aes' else DES_CLASSES)]))}
 
 
